@@ -254,7 +254,39 @@ def percent_formatting(tree):
     _Percent().visit(tree)
 
 
+def plain_assignments(tree):
+    """inside functions an annotated assignment ``x: T = v`` is read as
+    ``x = v`` and a bare declaration ``x: T`` is dropped (annotations of
+    locals are not evaluated and bind nothing)"""
+    for fn in ast.walk(tree):
+        if not isinstance(fn, (ast.FunctionDef, ast.AsyncFunctionDef)):
+            continue
+        for n in ast.walk(fn):
+            if isinstance(n, ast.ClassDef):
+                continue
+            for fld in ("body", "orelse", "finalbody"):
+                blk = getattr(n, fld, None)
+                if not (isinstance(blk, list) and blk and
+                        isinstance(blk[0], ast.stmt)) or \
+                        isinstance(n, ast.ClassDef):
+                    continue
+                out = []
+                for st in blk:
+                    if isinstance(st, ast.AnnAssign) and st.simple and \
+                            isinstance(st.target, ast.Name):
+                        if st.value is None:
+                            continue
+                        new = ast.Assign([st.target], st.value)
+                        out.append(ast.fix_missing_locations(
+                            ast.copy_location(new, st)))
+                    else:
+                        out.append(st)
+                if out:
+                    blk[:] = out
+
+
 def pre_normalise(tree):
+    plain_assignments(tree)
     strip_noops(tree)
     inline_return_temps(tree)
     percent_formatting(tree)
